@@ -23,10 +23,51 @@ Proof. exact settle_quiescent. Qed.
 Theorem C01_log_extends : forall fuel0 fuel hs k k', process fuel0 fuel hs k = Some k' -> extends (k_log k) (k_log k').
 Proof. exact process_log. Qed.
 
+(* Proved part 2b (every app, fuel and core state): when the event loop of a call returns, the executor's
+   spawn queue and ready queue are empty and no emitted event is left unapplied - no runnable work is
+   left behind at the level of the core. *)
+Theorem C01_core_idle_at_return : forall fuel0 fuel hs k k', process fuel0 fuel hs k = Some k' ->
+  k_spawn k' = [] /\ xready (k_H k') = [] /\ k_events k' = [].
+Proof. exact process_idle. Qed.
+
 (* Proved part 3: no runtime step removes an abort or changes the identity of existing commands
    (the frame theorem instantiated; every function of the runtime, every fuel). *)
 Theorem C01_frame_meta : forall fuel, spec Rmeta (funs fuel).
 Proof. exact frame_meta. Qed.
+
+(* Proved part 4: C01 for the reference semantics of an app under a Core (coq/Rt/RefCore.v), with which
+   every call of the implementation is compared on every run (RC_ok).  For every app, history and state:
+   (a) re-running any residual command that a call has run produces no output, allocates nothing and changes
+   nothing, from any request counter and with any larger fuel; (b) every accepted call (an event, or a
+   resolution the arity allows) leaves the whole app idle: no emitted event unapplied, every command settled;
+   (c) on an idle app, an event whose handler returns Command::done() returns no effect, appends exactly
+   itself to the log, starts nothing and leaves the app idle - nothing had been left behind by the calls
+   before it, nothing was deferred to it. *)
+From Crux Require Rt.Ref Rt.RefCore Rt.RefCoreProps Rt.RefQuiesce.
+Theorem C01_ref_rerun_is_silent : forall fuel en c n c' n' o,
+  Ref.run fuel en c n = Some (c', n', o) -> forall g m, fuel <= g -> Ref.run g en c' m = Some (c', m, Ref.ro0).
+Proof. exact RefQuiesce.run_idem. Qed.
+Theorem C01_ref_call_leaves_idle : forall hs a st effs lg st',
+  RefCore.kstep hs a st = Some (RefCore.KCall 0 effs lg, st') -> RefQuiesce.idle st'.
+Proof. exact RefQuiesce.call_leaves_idle. Qed.
+Theorem C01_ref_probe_silent : forall hs tg v st,
+  RefQuiesce.idle st -> RefCore.ks_out st = [] -> lookup tg hs = c_done ->
+  exists st', RefCore.kstep hs (AEvent tg v) st = Some (RefCore.KCall 0 [] (RefCore.ks_log st ++ [mkEv tg v []]), st') /\
+              RefCore.ks_cmds st' = RefCore.ks_cmds st /\ RefCore.ks_n st' = RefCore.ks_n st /\
+              RefCore.ks_reqs st' = RefCore.ks_reqs st /\ RefQuiesce.idle st'.
+Proof. exact RefQuiesce.probe_silent. Qed.
+(* non-vacuity: after a call that leaves a request outstanding the app is idle with one waiting strand *)
+Definition C01_demo_app : handlers := [(1, c_req_send 5 0 7)].
+Definition C01_demo_st : RefCore.kst :=
+  Eval vm_compute in match RefCore.kstep C01_demo_app (AEvent 1 0) RefCore.ks0 with Some (_, s) => s | None => RefCore.ks0 end.
+Example C01_ref_nonvacuous :
+  RefQuiesce.idle C01_demo_st /\ RefCore.ks_out C01_demo_st = [] /\ lookup 99 C01_demo_app = c_done /\
+  length (RefCoreProps.strands_of (RefCore.ks_cmds C01_demo_st)) = 1.
+Proof.
+  split; [|split; [|split]]; try reflexivity.
+  apply (RefQuiesce.call_leaves_idle C01_demo_app (AEvent 1 0) RefCore.ks0 [Ref.mkRE 5 0 [] 0 1] [mkEv 1 0 []]).
+  vm_compute. reflexivity.
+Qed.
 
 Example C01_nonvacuous :
   under_core FUEL0 [(1, c_req_send 5 0 7)] [AEvent 1 0; AEvent 99 0; AResolve 5 0 0 11; AEvent 99 0]
